@@ -20,10 +20,10 @@ From Coq Require Import List ZArith NArith Bool Lia.
 Import ListNotations.
 Open Scope Z_scope.
 
-Definition db := N.
-Definition conn := N.
-Definition tid := N.
-Definition bid := (db * N)%type.   (* identity of a Block object: (dbname, creation number) *)
+Notation db := N (only parsing).
+Notation conn := N (only parsing).
+Notation tid := N (only parsing).
+Notation bid := (N * N)%type (only parsing).   (* identity of a Block object: (dbname, creation number) *)
 
 (* the coroutine frame of a task suspended on a waiter future of a block *)
 Inductive wk :=
